@@ -298,6 +298,9 @@ func desc(t *T, o SchemaOpts, what string) string {
 func wrapIn(t *T, name string, max int) model.TypeRef  { return wrap(t, name, max) }
 func wrapOut(t *T, name string, max int) model.TypeRef { return wrap(t, name, max) }
 
+// WrapType is wrap for property files.
+func WrapType(t *T, name string, max int) model.TypeRef { return wrap(t, name, max) }
+
 // wrap draws a wrapper chain of depth ≤ max without NonNull(NonNull).
 func wrap(t *T, name string, max int) model.TypeRef {
 	w := ""
